@@ -169,6 +169,8 @@ def modea_literals(res, tier):
 def run(tier, seed, rng):
     res = Result('C17', tier, seed)
     proof_stage(res, 'C17')
+    from .. import fixedprog
+    fixedprog.run_fixed(res, 'fx_ref_mut_fields', fixedprog.REF_MUT_FIELDS, "variants holding `&'a mut T` and non-Clone fields under every derive that builds patterns")
     modea_literals(res, tier)
     c = generate(tier, rng)
     out = correspond(res, c, runner.Workspace('c17'), label='modeB')
